@@ -88,6 +88,8 @@ type V1Case struct {
 	// with the previous one and its queue has run empty (so a message can arrive
 	// after the Ack reply that covers it). Empty: all messages first.
 	Feed []int `json:"feed,omitempty"`
+	// v1-par: number of workers of the ParallelNode
+	Workers int `json:"workers,omitempty"`
 }
 
 // v1Phases cuts the message indices 0..n-1 into the groups of the schedule
@@ -136,6 +138,8 @@ type V1Obs struct {
 	Status []string `json:"status,omitempty"` // per message: open | acked | nacked
 	Calls  []V1SRes `json:"calls,omitempty"`
 	Aux    string   `json:"aux,omitempty"` // anything that could not be canonicalised
+	Par    []V1PObs `json:"par,omitempty"` // v1-par: per message
+	Closed bool     `json:"closed,omitempty"` // v1-par: the outbound channel was closed
 }
 
 const v1MaxNat = 5000
@@ -215,6 +219,8 @@ func V1CaseFromJSON(m map[string]any) V1Case {
 		for _, s := range c.Calls {
 			_ = v1Call(s)
 		}
+	case "v1-par":
+		v1ParValidate(c)
 	default:
 		panic("ill-formed case: engine")
 	}
@@ -1007,13 +1013,15 @@ func v1RunLocal(c V1Case) V1Obs {
 		return runV1Acker(c)
 	case "sandbox":
 		return runV1Sandbox(c)
+	case "v1-par":
+		return runV1Par(c)
 	}
 	panic("ill-formed case: engine")
 }
 
 func v1NeedsChild(c V1Case) bool {
 	switch c.Engine {
-	case "v1-acker":
+	case "v1-acker", "v1-par":
 		return true // the worker goroutine can panic: no recover can catch that
 	case "sandbox":
 		for _, s := range c.Calls {
